@@ -20,6 +20,7 @@ from gen_prog import Gen, gen_context, I, B  # noqa
 import c05_gen  # noqa
 import c05_router  # noqa
 import c05_illtyped  # noqa
+import c05_tails  # noqa
 import progcorpus  # noqa
 from c03 import store_dense_recipe  # noqa  (shared with C03: store/load-dense main routines)
 
@@ -482,6 +483,16 @@ def main(argv):
                                       "defects": len(c05_illtyped.defects()) + len(c05_illtyped.whole_programs()),
                                       "contexts": ["%s/v%d/fp=%s" % x for x in c05_illtyped.CONTEXTS]}
 
+    # ---- 0c. routine-tail shapes: the last statement of a routine is an If / ElseIf / Cond / nesting with leaving and staying arms
+    n_tail = 0
+    tail_before = (stats["compile_error"], stats["accept"])
+    for (name, main_r, subdefs, v, ss, fp) in c05_tails.all_cases():
+        c = Case("tails", main_r, [dict(sd) for sd in subdefs], v, True, ss, fp)
+        c.tail_name = name
+        consider(c, 2)
+        n_tail += 1
+    ck.coverage["tail_shapes"] = {"cases": n_tail, "compile_errors": stats["compile_error"] - tail_before[0], "accepted_by_checker": stats["accept"] - tail_before[1]}
+
     # ---- 0b. directed: store/load-dense main routines (C03's generator) with the slot optimiser on
     main_model = Model()
     n_dense = 400 if thorough else 45
@@ -556,7 +567,8 @@ def main(argv):
     main_model.close()
     return ck.finish(
         level="proof",
-        rule="programs: a nearly-well-typed stream (one typing defect per program: a value in statement position, none where a value is needed, an operand / store / "
+        rule="programs: routine-tail shapes (main routines and none/uint64/bytes subroutines with 0..2 arguments whose last statement is an If / If-ElseIf-Else / Cond / nesting "
+             "with leaving (Return/Approve/Reject/Err) and staying arms in every position, followed by another routine; versions 4..10, both conventions, optimiser on/off), a nearly-well-typed stream (one typing defect per program: a value in statement position, none where a value is needed, an operand / store / "
              "abi set / output.set / Return of the wrong concrete type; main routine, scratch-convention and frame-pointer subroutines; a compiler rejection is the expected outcome, an acceptance is checked), "
              "store/load-dense main routines (c03.store_dense_recipe; scratch_slots=True at v6, default at v9/v10; known-finding class decided by the Coq compile model), "
              "a directed set of Router-built programs (2 ARC-4 routers: ABI methods with uint64/string/bool/address/tuple arguments, void and value results, "
